@@ -105,7 +105,7 @@ def run(ctx):
             refs.append(r)
 
     cases = []          # decode-side cases (bytes fed to sem / reference / betterproto / model)
-    enc_pairs, enc_meta = [], []
+    enc_pairs, enc_meta, enc_lits = [], [], []
     nre = N_REENC_QUICK if not ctx.thorough else N_REENC_THOROUGH
 
     def describe(si, ci):
@@ -217,6 +217,7 @@ def run(ctx):
                               f"else cv_of_aval (abs_obj sc{si} o)); cv_of_aval (abs_obj sc{si} o)])",
                               f"(let o := {lit} in CL [{cb(b)}; cv_of_aval (abs_obj sc{si} o); cv_of_aval (abs_obj sc{si} o)])"))
             enc_meta.append((si, ci, inp))
+            enc_lits.append((si, lit))
             add_decode_case(si, ci, b, "betterproto")
             # ---- direction 2: the reference's bytes and their re-encodings read by betterproto
             rb = ref.SerializeToString()
@@ -276,6 +277,12 @@ def run(ctx):
             ctx.fail("corr", f"abs (parse bs) differs from sem bs on a supported input ({c.label}): C02_decode_refines does not describe this tree",
                      input=inp, expected_reference=pairs[i][1][:3000],
                      theorem_or_correspondence="C02_decode_refines (abs_obj . parse = sem under supported)")
+    # the schema-level hypotheses of the theorems hold on every generated schema
+    sch_pairs = [(f"cbool (wf_schema sc{i} && builtins_std sc{i})", cz(1)) for i in range(len(schemas))]
+    for i in lib.coq_compare(ctx, "c02schemas", IMPORTS, sch_pairs, chunk=8, prelude=prelude):
+        ctx.fail("corr", "wf_schema / builtins_std is false on a generated schema: the theorems' hypotheses do not cover what the generator builds",
+                 input={"schema": schemas[i].describe()}, theorem_or_correspondence="wf_schema, builtins_std")
+    ctx.count("schemas_wf_and_std", len(schemas))
     bad_sup = lib.coq_compare(ctx, "c02sup", IMPORTS, sup_pairs, chunk=150, prelude=prelude)
     for i in bad_sup[:12]:
         c = cases[i]
@@ -308,6 +315,11 @@ def run(ctx):
         ctx.fail("corr", "encoder side: Model/Encode.enc_obj differs from bytes(m), or sem (enc_obj m) differs from abs m under enc_faithful "
                  "(C02_encode_legal does not describe this tree)", input=inp, model_expr=enc_pairs[i][0][:3000],
                  theorem_or_correspondence="T2 Model/Encode.v <-> bytes(m); C02_encode_legal")
+    # how often the side condition of the encoder-side sample holds
+    ef_pairs = [(f"cbool (enc_faithful sc{si} {lit_})", cz(1)) for (si, lit_) in enc_lits]
+    not_faithful = lib.coq_compare(ctx, "c02encf", IMPORTS, ef_pairs, chunk=150, prelude=prelude)
+    ctx.count("enc_faithful_true", len(ef_pairs) - len(not_faithful))
+    ctx.count("enc_faithful_false", len(not_faithful))
     ctx.notes.append("-0.0 in a float/double field without presence is skipped by betterproto's encoder (== default) while the reference emits it: "
                      "the decoded values still compare equal (0.0 == -0.0); counted under note:negative_zero_float_in_message")
     ctx.notes.append("a plain Timestamp/Duration field holding the epoch / a zero span is not emitted by betterproto (datetime has no presence); "
